@@ -41,7 +41,11 @@ SPEC = {
                       "against the list of the selected rows; read-only twin. "
                       "(5b) every ...ArrayFromBuffer constructor x sources strided along their FIRST dimension only (rows skipped or reversed, each row dense): all 55 distinct "
                       "selections [a:b:s], s in +-1,+-2,+-3, of a 6-row 1-D / (6,W) buffer of every element type and of every exporting imath array class: the call raises or "
-                      "returns exactly the selected rows; dense selections of the right type must be copied.",
+                      "returns exactly the selected rows; dense selections of the right type must be copied. "
+                      "(5c) every V2/V3/V4 ...ArrayFromBuffer x C-contiguous 2-D sources (r,c) of its own scalar type, r in 1..6, c in {2,3,4} (array casts and memoryviews of the imath "
+                      "V<c> arrays): accepted element-exact iff c equals the vector width, otherwise an exception (also when r*c is a multiple of the width). "
+                      "(4d) mask stores through a FixedVArray masked reference w = v[m1] with masks of BOTH admissible lengths (the view's and the unmasked one; all 0/1 masks): "
+                      "w.size[m2] = scalar / IntArray and the row store w[m2] = array change row j of v iff m1[j] and m2 selects j in the index space of its length.",
         "level_note": "Bounded: lengths <= 5 (1-D; <= 4 in the quick aliasing / component stages), <= 3 per dimension (2-D, matrix, V-array), histories of depth 4 (quick) / 5 (thorough) on an array of "
                       "length 3 with at most 4 live handles, 3 objects per ownership scenario; element values are small integers. Elements are observed "
                       "through integer __getitem__ and repr(). The liveness oracle relies on which view kinds borrow storage, read off the anchored "
